@@ -44,10 +44,11 @@ theorem expandFn_ok {v : Variant} {attr : Toks} {f : FnItem} {out : Out}
 
 theorem expandMod_ok {v : Variant} {attr : Toks} {m : ModItemIn} {out : Out}
     (h : expandMod v attr m = .ok out) :
-    ∃ items a fns tg depMode implBlock,
+    ∃ items a fns0 fns tg depMode implBlock,
       splitBody false m.oracle m.body.length m.body = .ok items ∧
       parseFnAttr attr = .ok a ∧
-      analyzeFns .selfRef (v.apply a.opts) ((items.filterMap BodyItem.fn?).map (·.sig)) {} = .ok (fns, tg) ∧
+      analyzeFns .selfRef (v.apply a.opts) ((items.filterMap BodyItem.fn?).map (·.sig)) {} = .ok (fns0, tg) ∧
+      fns = attachCfg (bodyFnAttrs items) fns0 ∧
       detectDepMode .module fns = .ok depMode ∧
       genImplBlock (v.apply a.opts) [i a.traitIdent] .none tg .module depMode m.attrs fns = .ok implBlock ∧
       out = .modOut m items
@@ -66,17 +67,18 @@ theorem expandMod_ok {v : Variant} {attr : Toks} {m : ModItemIn} {out : Out}
       cases h2 : analyzeFns .selfRef (v.apply a.opts) ((items.filterMap BodyItem.fn?).map (·.sig)) {} with
       | error e => simp [h2] at h
       | ok r =>
-        obtain ⟨fns, tg⟩ := r
+        obtain ⟨fns0, tg⟩ := r
         simp only [h2] at h
-        cases h3 : detectDepMode .module fns with
+        cases h3 : detectDepMode .module (attachCfg (bodyFnAttrs items) fns0) with
         | error e => simp [h3] at h
         | ok depMode =>
           simp only [h3] at h
-          cases h4 : genImplBlock (v.apply a.opts) [i a.traitIdent] .none tg .module depMode m.attrs fns with
+          cases h4 : genImplBlock (v.apply a.opts) [i a.traitIdent] .none tg .module depMode m.attrs
+              (attachCfg (bodyFnAttrs items) fns0) with
           | error e => simp [h4] at h
           | ok implBlock =>
             simp only [h4] at h
-            refine ⟨items, a, fns, tg, depMode, implBlock, rfl, rfl, h2, h3, h4, ?_⟩
+            refine ⟨items, a, fns0, _, tg, depMode, implBlock, rfl, rfl, h2, rfl, h3, h4, ?_⟩
             injection h with h
             exact h.symm
 
@@ -131,11 +133,12 @@ theorem expandTrait_ok {v : Variant} {attr : Toks} {t : TraitItem} {out : Out}
 
 theorem expandImpl_ok {v : Variant} {attr : Toks} {m : ImplItemIn} {out : Out}
     (h : expandImpl v attr m = .ok out) :
-    ∃ items a fns tg depMode implBlock,
+    ∃ items a fns0 fns tg depMode implBlock,
       splitBody true m.oracle m.body.length m.body = .ok items ∧
       parseImplAttr attr = .ok a ∧
       analyzeFns (if a.dynRef then .dynamicImpl else .staticImpl) (v.apply a.opts)
-        ((items.filterMap BodyItem.fn?).map (·.sig)) {} = .ok (fns, tg) ∧
+        ((items.filterMap BodyItem.fn?).map (·.sig)) {} = .ok (fns0, tg) ∧
+      fns = attachCfg (bodyFnAttrs items) fns0 ∧
       detectDepMode .implBlock fns = .ok depMode ∧
       genImplBlock (v.apply a.opts) m.traitPath (if a.dynRef then .dynamic m.selfTy else .static_ m.selfTy) tg
         .implBlock depMode m.attrs fns = .ok implBlock ∧
@@ -156,18 +159,18 @@ theorem expandImpl_ok {v : Variant} {attr : Toks} {m : ImplItemIn} {out : Out}
           ((items.filterMap BodyItem.fn?).map (·.sig)) {} with
       | error e => simp [h2] at h
       | ok r =>
-        obtain ⟨fns, tg⟩ := r
+        obtain ⟨fns0, tg⟩ := r
         simp only [h2] at h
-        cases h3 : detectDepMode .implBlock fns with
+        cases h3 : detectDepMode .implBlock (attachCfg (bodyFnAttrs items) fns0) with
         | error e => simp [h3] at h
         | ok depMode =>
           simp only [h3] at h
           cases h4 : genImplBlock (v.apply a.opts) m.traitPath (if a.dynRef then .dynamic m.selfTy else .static_ m.selfTy) tg
-              .implBlock depMode m.attrs fns with
+              .implBlock depMode m.attrs (attachCfg (bodyFnAttrs items) fns0) with
           | error e => simp [h4] at h
           | ok implBlock =>
             simp only [h4] at h
-            refine ⟨items, a, fns, tg, depMode, implBlock, rfl, rfl, h2, h3, h4, ?_⟩
+            refine ⟨items, a, fns0, _, tg, depMode, implBlock, rfl, rfl, h2, rfl, h3, h4, ?_⟩
             injection h with h
             exact h.symm
 
